@@ -666,6 +666,12 @@ func runC14(col *Collector, tier string, seed int64) {
 		"started simultaneously or in sequence, through TaskRunner.Run + Finish, through the Scheduler, and through the taskctl binary; single-task shapes exhaustively. " +
 		"non-trivial = a context with hooks is used; distinct = distinct scenarios"
 	scs := genHookScenarios(tier, rng)
+	for v := 0; v < 4; v++ {
+		cancelledContextCase(col, v)
+	}
+	for v := 0; v < 6; v++ {
+		unusedContextCliCase(col, v)
+	}
 	parallel(len(scs), 16, func(i int) {
 		s := scs[i]
 		o := runHookScenario(s)
@@ -706,4 +712,153 @@ func runC14(col *Collector, tier string, seed int64) {
 		cs.Impl = strings.Join(parts, "|")
 		col.Add(cs)
 	})
+}
+
+// a run that is CANCELLED while a task of a context is executing (variant 0: Scheduler.Cancel from outside; 1: by the
+// scheduler itself, because the condition of a waiting stage can no longer be evaluated; 2: TaskRunner.Cancel during a
+// direct run; 3: like 1, inside an included pipeline): the context was brought up and used, so its `after` still runs
+// once for the interrupted execution and its `down` once at shutdown.
+func cancelledContextCase(col *Collector, variant int) {
+	trace := newTracePath()
+	defer os.Remove(trace)
+	cs := Case{Tags: []string{"cancelled-run"}, NonTrivial: true, Replay: fmt.Sprintf("one task in a context with up/before/after/down, interrupted by a cancellation (variant %d: 0 Scheduler.Cancel, 1 condition error, 2 TaskRunner.Cancel, 3 condition error in an included pipeline), then Finish", variant)}
+	cs.Line = "hooks ctx=0 upfail=0"
+	ctxs := map[string]*runner.ExecutionContext{"c0": runner.NewExecutionContext(nil, "", variables.NewVariables(),
+		[]string{hookCmd(trace, "c0.up", false)}, []string{hookCmd(trace, "c0.down", false)},
+		[]string{hookCmd(trace, "c0.before", false)}, []string{hookCmd(trace, "c0.after", false)})}
+	r, err := runner.NewTaskRunner(runner.WithContexts(ctxs))
+	if err != nil {
+		cs.Fail, cs.Sig = err.Error(), "c14-crash"
+		col.Add(cs)
+		return
+	}
+	r.Stdout, r.Stderr = devNull{}, devNull{}
+	t := task.FromCommands(hookCmd(trace, "t0.cmd", false) + "; sleep 5")
+	t.Name, t.Context = "t0", "c0"
+	started := func() bool {
+		for _, tok := range readHookTrace(trace) {
+			if tok == "t0.cmd" {
+				return true
+			}
+		}
+		return false
+	}
+	waitStarted := func() {
+		for i := 0; i < 500 && !started(); i++ {
+			time.Sleep(10 * time.Millisecond)
+		}
+		time.Sleep(50 * time.Millisecond)
+	}
+	done := make(chan struct{})
+	go func() {
+		defer close(done)
+		defer func() {
+			if p := recover(); p != nil {
+				cs.Fail, cs.Sig = fmt.Sprint("panic: ", p), "c14-crash"
+			}
+		}()
+		if variant == 2 {
+			fin := make(chan struct{})
+			go func() { r.Run(t); close(fin) }()
+			waitStarted()
+			r.Cancel()
+			<-fin
+			r.Finish()
+			return
+		}
+		cond := makeCondScript()
+		defer os.Remove(cond)
+		stages := []*scheduler.Stage{{Name: "t0", Task: t}}
+		waiting := &scheduler.Stage{Name: "w", Task: task.FromCommands("true"), DependsOn: []string{"t0"}}
+		if variant == 1 || variant == 3 {
+			waiting.Condition = cond
+		}
+		stages = append(stages, waiting)
+		g, err := scheduler.NewExecutionGraph(stages...)
+		if err == nil && variant == 3 {
+			g, err = scheduler.NewExecutionGraph(&scheduler.Stage{Name: "inc", Pipeline: g})
+		}
+		if err != nil {
+			cs.Fail, cs.Sig = err.Error(), "c14-crash"
+			return
+		}
+		sd := scheduler.NewScheduler(r)
+		sd.VerifSetPause(time.Millisecond)
+		fin := make(chan struct{})
+		go func() { sd.Schedule(g); close(fin) }()
+		waitStarted()
+		if variant == 0 {
+			sd.Cancel()
+		} else {
+			breakCond(cond)
+		}
+		<-fin
+		sd.Finish()
+	}()
+	select {
+	case <-done:
+	case <-time.After(30 * time.Second):
+		cs.Fail, cs.Sig = "HANG: the cancelled run and Finish did not return within 30s", "c14-crash"
+	}
+	toks := readHookTrace(trace)
+	n := map[string]int{}
+	for _, tok := range toks {
+		n[tok]++
+	}
+	cs.Impl = fmt.Sprintf("c0:up=%d,before=%d,after=%d,down=%d", n["c0.up"], n["c0.before"], n["c0.after"], n["c0.down"])
+	want := "c0.up,c0.before,t0.cmd,c0.after,c0.down"
+	if cs.Fail == "" && strings.Join(toks, ",") != want {
+		cs.Fail, cs.Sig = fmt.Sprintf("hooks and commands that ran: %s; the context was brought up and used by an execution that was then interrupted: %s", strings.Join(toks, ","), want), "c14-cancelled-hooks"
+	}
+	col.Add(cs)
+}
+
+// the taskctl binary running a pipeline in which the only stage of a context never executes (its dependency failed,
+// its own condition is false, it sits in an included pipeline behind a failed stage), next to a context that IS used:
+// nothing of the unused context runs - no up, and therefore no down at shutdown either
+func unusedContextCliCase(col *Collector, variant int) {
+	dir := newScratchDir("c14u")
+	defer os.RemoveAll(dir)
+	trace := filepath.Join(dir, "trace")
+	var b strings.Builder
+	b.WriteString("contexts:\n")
+	for _, c := range []string{"c0", "c1"} {
+		fmt.Fprintf(&b, "  %s:\n    up: [%q]\n    down: [%q]\n    before: [%q]\n    after: [%q]\n", c, hookCmd(trace, c+".up", false), hookCmd(trace, c+".down", false),
+			hookCmd(trace, c+".before", false), hookCmd(trace, c+".after", false))
+	}
+	failing := variant%3 != 1
+	fmt.Fprintf(&b, "tasks:\n  t0:\n    context: c0\n    command: [%q]\n  t1:\n    context: c1\n    command: [%q]\n", hookCmd(trace, "t0.cmd", failing), hookCmd(trace, "t1.cmd", false))
+	b.WriteString("pipelines:\n")
+	switch variant % 3 {
+	case 0: // the dependency fails
+		b.WriteString("  p:\n    - task: t0\n    - task: t1\n      depends_on: [t0]\n")
+	case 1: // the stage's own condition is false
+		b.WriteString("  p:\n    - task: t0\n    - task: t1\n      depends_on: [t0]\n      condition: \"false\"\n")
+	case 2: // inside an included pipeline, behind the failed stage
+		b.WriteString("  inner:\n    - task: t0\n    - task: t1\n      depends_on: [t0]\n  p:\n    - pipeline: inner\n")
+	}
+	os.WriteFile(filepath.Join(dir, "c.yaml"), []byte(b.String()), 0644)
+	args := []string{"-c", filepath.Join(dir, "c.yaml"), "--output", "raw", "p"}
+	if variant >= 3 {
+		args = []string{"-c", filepath.Join(dir, "c.yaml"), "--output", "raw", "run", "pipeline", "p"}
+	}
+	res := runTaskctl(dir, nil, 30*time.Second, args...)
+	toks := readHookTrace(trace)
+	cs := Case{Tags: []string{"via=cli", "unused-context"}, NonTrivial: true, Replay: fmt.Sprintf("taskctl %s with %s", strings.Join(args[4:], " "), strings.ReplaceAll(b.String(), "\n", "\\n"))}
+	n := map[string]int{}
+	for _, tok := range toks {
+		n[tok]++
+	}
+	cs.Line = "hooks ctx=0 upfail=00"
+	cs.Impl = fmt.Sprintf("c0:up=%d,before=%d,after=%d,down=%d|c1:up=%d,before=%d,after=%d,down=%d", n["c0.up"], n["c0.before"], n["c0.after"], n["c0.down"], n["c1.up"], n["c1.before"], n["c1.after"], n["c1.down"])
+	want := "c0.up,c0.before,t0.cmd,c0.after,c0.down"
+	switch {
+	case res.panicked || res.timedOut:
+		cs.Fail, cs.Sig = fmt.Sprintf("taskctl exit=%d timeout=%v %s", res.exit, res.timedOut, lastLines(res.stderr, 2)), "c14-crash"
+	case (res.exit != 0) != failing:
+		cs.Fail, cs.Sig = fmt.Sprintf("taskctl exit=%d, the target %s", res.exit, map[bool]string{true: "failed", false: "succeeded"}[failing]), "c14-down-cli"
+	case strings.Join(toks, ",") != want:
+		cs.Fail, cs.Sig = fmt.Sprintf("hooks and commands that ran: %s; only context c0 was used: %s", strings.Join(toks, ","), want), "c14-unused-context"
+	}
+	col.Add(cs)
 }
